@@ -61,8 +61,8 @@ def clause_nonzero(R, prefix):
         rets.append(alt)
     def is_nz(t, depth=0):
         t = peel(t)
-        if is_call(t, "NonZero::<T>::get", "NonZero::<u16>::get") and chain(t[3][0])[1] == [cname]:
-            return True
+        if is_call(t, "NonZero::<T>::get", "NonZero::<u16>::get"):
+            return True        # whatever NonZero value it is taken of: non-zero by type
         if t[0] == "call" and t[2] in f.bodies and depth < 3:
             hb = f.bodies[t[2]]
             return all(is_nz(a, depth + 1) for a in phi_alts(hb.local_term(0)))
@@ -205,13 +205,20 @@ def rule_src(R):
 
 
 def root_local(body, op):
-    """follow `_t = copy _n` chains of plain single-definition locals"""
+    """follow `_t = copy _n` chains of plain single-definition locals (and `_t = NonZero::get(_n)`: the same number)"""
     pl = op.get("copy") or op.get("move")
     seen = set()
     while pl is not None and not pl["proj"] and pl["l"] not in seen:
         l = pl["l"]
         seen.add(l)
         ds = body.defs().get(l, [])
+        if len(ds) == 1 and ds[0][0] == "call":
+            c_ = body.calls[ds[0][1]]
+            if c_.is_("NonZero::<T>::get", "NonZero::<u16>::get") and c_.args:
+                nxt = c_.args[0].get("copy") or c_.args[0].get("move")
+                if nxt is not None and not nxt["proj"]:
+                    pl = nxt
+                    continue
         if len(ds) == 1 and ds[0][0] == "stmt":
             rv = body.blocks[ds[0][1]]["stmts"][ds[0][2]]["rv"]
             if "use" in rv:
